@@ -362,7 +362,7 @@ func vhReq(t *vhToks) string {
 		ct := rr.Header().Get("Content-Type")
 		ctk := "other"
 		switch {
-		case ct == "application/json":
+		case ct == "application/json" || strings.HasPrefix(ct, "application/json;"):
 			ctk = "json"
 		case ct == "":
 			ctk = "none"
@@ -504,6 +504,14 @@ func vhLeak(t *vhToks) string {
 	return fmt.Sprintf("LEAK ok %d tokens=%d ok200=%d bytes=%d", n, len(usedA), ok200, bytesTotal)
 }
 
+// Hooks for the storage-backed probe (verif_http_e2e_probe_test.go).  It has to live in the external test package
+// httpserver_test: the storage package imports httpserver, so an in-package test file cannot import storage.
+var VerifE2E func(fields []string) string
+
+func VerifServe(hc *Coordinator, method, rawpath string) (*httptest.ResponseRecorder, bool, bool) {
+	return vhServe(hc, method, rawpath, "")
+}
+
 func vhRunLine(line string) (res string) {
 	defer func() {
 		if r := recover(); r != nil {
@@ -516,6 +524,11 @@ func vhRunLine(line string) (res string) {
 		return vhReq(t)
 	case "leak":
 		return vhLeak(t)
+	case "e2e":
+		if VerifE2E == nil {
+			return "PROBE-ERROR e2e hook not registered"
+		}
+		return VerifE2E(t.f[t.i:])
 	}
 	return "PROBE-ERROR unknown case kind"
 }
